@@ -146,6 +146,9 @@ TIMEOUTS = [
 PRELUDE = "total = 0\nwords = ['a', 'b']\n\n"   # two student lines + blank before the failing body (line 4 on)
 
 
+BLOCKED_BUILTIN = {'blocked-exit': 'exit', 'blocked-compile': 'compile', 'blocked-eval': 'eval', 'blocked-exec': 'exec', 'blocked-globals': 'globals'}
+
+
 def all_modes():
     out = []
     for n, b in BUILTIN_RAISES:
@@ -593,6 +596,17 @@ def execute_case(ctx, which, case, state=None):
         sbx.run(code='print("warm")')
         sbx.run(code='zz = 2')
         sandbox.clear_context()
+    elif pos == 'after-the-builtin-was-allowed-for-an-earlier-execution':
+        # the instructor let her own warm-up code use the builtin, then put the block back before the student's code ran
+        name = BLOCKED_BUILTIN[case['mode']]
+        sandbox.allow_function(name)
+        sbx.run(code='warm = %s' % {'eval': "eval('1 + 1')", 'exec': "exec('w = 1')", 'compile': "compile('1', 'f', 'eval')", 'globals': 'len(globals())',
+                                    'exit': '1'}[name])
+        if sbx.get_exception() is not None:
+            ctx.count('setup_run_failed')
+            return
+        sandbox.block_function(name)
+        ctx.count('cells_after_a_builtin_was_allowed_and_blocked_again')
     elif pos == 'the-same-execution-before' and kind != 'timeout':
         # the very same execution was already done once on this sandbox (an instructor re-running the program with other
         # inputs): the second time is the measured one
@@ -918,8 +932,15 @@ def _run(ctx, which):
         if c['kind'] == 'timeout':      # time limits exist only in threaded executions: every history position, plain configuration
             return c['tracer'] == 'none' and c['env'] == 'plain'
         return c['tracer'] == 'none' and not c['threaded'] and c['position'] == 'first' and c['env'] == 'plain'
-    base = [c for c in cells if plain(c)][ctx.shard::ctx.nshards]
-    rest = [c for c in cells if not plain(c)][ctx.shard::ctx.nshards]
+    for m in all_modes():
+        if m['mode'] in BLOCKED_BUILTIN:
+            for entry in ('run', 'call', 'evaluate', 'run-code'):
+                for tracer in ('none', 'native'):
+                    c = dict(m)
+                    c.update(entry=entry, tracer=tracer, threaded=False, position='after-the-builtin-was-allowed-for-an-earlier-execution', env='plain')
+                    cells.append(c)
+    base = [c for c in cells if plain(c) or c['position'] == 'after-the-builtin-was-allowed-for-an-earlier-execution'][ctx.shard::ctx.nshards]
+    rest = [c for c in cells if not plain(c) and c['position'] != 'after-the-builtin-was-allowed-for-an-earlier-execution'][ctx.shard::ctx.nshards]
     if ctx.quick():
         # every (mode, entry) pair in the plain configuration + a random sample of the other configurations
         rng.shuffle(rest)
